@@ -472,10 +472,20 @@ def _grid_loop():
     return fn, b[0], wh[0].body[1]
 
 
-def c_try_random_accepts():
+def _drawn_name():
+    """the local the rejection-sampling loop binds the drawn cell to (any name)"""
     fn, top, test = _grid_loop()
-    t = _wrap("rejection-sampling test", lambda: Eff("space", "sp", {"cell": "Z"}).bexpr(test.test))
-    return f"Definition gen_try_random_accepts (s : CS.state) (v_cell : Z) : bool :=\n  {t}."
+    wh = [n for n in top.body if isinstance(n, ast.While)][0]
+    draw = wh.body[0]
+    if not (isinstance(draw, ast.Assign) and len(draw.targets) == 1 and isinstance(draw.targets[0], ast.Name)):
+        raise T.Broken("Grid.select_random_empty_cell: the loop does not start with `<name> = <draw>`")
+    return draw.targets[0].id, test
+
+
+def c_try_random_accepts():
+    name, test = _drawn_name()
+    t = _wrap("rejection-sampling test", lambda: Eff("space", "sp", {name: "Z"}).bexpr(test.test))
+    return f"Definition gen_try_random_accepts (s : CS.state) ({Eff.v(name)} : Z) : bool :=\n  {t}."
 
 
 def c_random_empty_skeleton():
